@@ -42,6 +42,7 @@ var targets = []string{
 	"GetAttrType", "GetAttrTypeString",
 	"deduceRoute", "buildSelfLink", "buildRelationshipLinks",
 	"checkIn", "parseCommaList", "parseFragments",
+	"Schema.HasType", "Schema.GetType",
 }
 
 var (
@@ -95,6 +96,10 @@ func leanType(t types.Type, n ast.Node) string {
 			return "Time"
 		case "Resource":
 			return "ResView"
+		case "Schema":
+			return "Schema"
+		case "Type":
+			return "Typ"
 		}
 		return leanType(u.Underlying(), n)
 	case *types.Basic:
@@ -111,6 +116,9 @@ func leanType(t types.Type, n ast.Node) string {
 	case *types.Slice:
 		if b, ok := u.Elem().(*types.Basic); ok && b.Info()&types.IsString != 0 {
 			return "List GoString"
+		}
+		if nm, ok := u.Elem().(*types.Named); ok && nm.Obj().Name() == "Type" {
+			return "List Typ"
 		}
 	case *types.Map:
 		return "List (GoString × GoString)"
@@ -167,8 +175,9 @@ func isUnsigned(t types.Type) bool {
 type tr struct {
 	translated map[string]bool // targets (lean names) available for calls
 	// inside `for i := range xs`: the objects of xs and i, and the Lean name of the element
-	loopSlice, loopKey types.Object
-	loopElem           string
+	loopSlice        string // source text of xs
+	loopKey, loopVal types.Object
+	loopElem         string
 }
 
 func (x *tr) constant(e ast.Expr) (string, bool) {
@@ -208,8 +217,11 @@ func (x *tr) expr(e ast.Expr) string {
 			return v.Name
 		}
 		if obj := info.Uses[v]; obj != nil {
-			if x.loopElem != "" && obj == x.loopKey {
+			if x.loopElem != "" && x.loopKey != nil && obj == x.loopKey {
 				fail(v, "the loop index is used other than to read the current element")
+			}
+			if x.loopElem != "" && x.loopVal != nil && obj == x.loopVal {
+				return x.loopElem
 			}
 			if _, isVar := obj.(*types.Var); isVar {
 				return local(v.Name)
@@ -226,6 +238,12 @@ func (x *tr) expr(e ast.Expr) string {
 	case *ast.BinaryExpr:
 		return x.binary(v)
 	case *ast.SelectorExpr:
+		// res.GetType().Name
+		if call, ok := v.X.(*ast.CallExpr); ok && v.Sel.Name == "Name" {
+			if s, ok := call.Fun.(*ast.SelectorExpr); ok && s.Sel.Name == "GetType" && len(call.Args) == 0 && leanType(info.Types[s.X].Type, v) == "ResView" {
+				return "(" + x.expr(s.X) + ").typeName"
+			}
+		}
 		// field of a struct value
 		if sel, ok := info.Types[v.X]; ok {
 			t := sel.Type
@@ -233,15 +251,15 @@ func (x *tr) expr(e ast.Expr) string {
 				t = p.Elem()
 			}
 			if n, isN := t.(*types.Named); isN {
-				if _, isS := n.Underlying().(*types.Struct); isS && n.Obj().Name() == "Rel" {
-					return "(" + x.expr(v.X) + ")." + lowerFirst(v.Sel.Name)
+				if _, isS := n.Underlying().(*types.Struct); isS {
+					switch n.Obj().Name() + "." + v.Sel.Name {
+					case "Schema.Types", "Type.Name", "Type.Attrs", "Type.Rels":
+						return "(" + x.expr(v.X) + ")." + lowerFirst(v.Sel.Name)
+					}
+					if n.Obj().Name() == "Rel" {
+						return "(" + x.expr(v.X) + ")." + lowerFirst(v.Sel.Name)
+					}
 				}
-			}
-		}
-		// res.GetType().Name
-		if call, ok := v.X.(*ast.CallExpr); ok && v.Sel.Name == "Name" {
-			if s, ok := call.Fun.(*ast.SelectorExpr); ok && s.Sel.Name == "GetType" && len(call.Args) == 0 && leanType(info.Types[s.X].Type, v) == "ResView" {
-				return "(" + x.expr(s.X) + ").typeName"
 			}
 		}
 		fail(v, "selector %s", v.Sel.Name)
@@ -268,6 +286,9 @@ func (x *tr) expr(e ast.Expr) string {
 			}
 			return "({ " + strings.Join(parts, ", ") + " } : Rel)"
 		}
+		if n, ok := t.(*types.Named); ok && n.Obj().Name() == "Type" && len(v.Elts) == 0 {
+			return "Typ.empty"
+		}
 		if _, ok := t.Underlying().(*types.Map); ok {
 			parts := []string{}
 			for _, el := range v.Elts {
@@ -278,8 +299,8 @@ func (x *tr) expr(e ast.Expr) string {
 		}
 		fail(v, "composite literal of %s", t)
 	case *ast.IndexExpr:
-		if xs, ok := v.X.(*ast.Ident); ok && x.loopElem != "" {
-			if k, ok := v.Index.(*ast.Ident); ok && info.Uses[xs] == x.loopSlice && info.Uses[k] == x.loopKey {
+		if x.loopElem != "" && x.loopKey != nil {
+			if k, ok := v.Index.(*ast.Ident); ok && types.ExprString(v.X) == x.loopSlice && info.Uses[k] == x.loopKey {
 				return x.loopElem
 			}
 		}
@@ -666,27 +687,44 @@ func (x *tr) block(stmts []ast.Stmt, ind string) string {
 	return ""
 }
 
-// rangeStmt: `for i := range xs { ... }` over a []string, the body reading xs[i] only.
+// rangeStmt: `for i := range xs { ... }` reading xs[i] only, or `for _, v := range xs { ... }`.
 func (x *tr) rangeStmt(s *ast.RangeStmt, after []ast.Stmt, ind string, mustReturn bool) string {
-	key, ok := s.Key.(*ast.Ident)
-	xs, ok2 := s.X.(*ast.Ident)
-	if !ok || !ok2 || s.Value != nil || s.Tok != token.DEFINE || x.loopElem != "" ||
-		leanType(info.Types[s.X].Type, s) != "List GoString" {
+	lt := leanType(info.Types[s.X].Type, s)
+	if s.Tok != token.DEFINE || x.loopElem != "" || !strings.HasPrefix(lt, "List ") {
 		fail(s, "range statement outside the subset")
 	}
-	x.loopSlice, x.loopKey, x.loopElem = info.Uses[xs], info.Defs[key], "elem_"
-	defer func() { x.loopSlice, x.loopKey, x.loopElem = nil, nil, "" }()
-	leave := func() { x.loopSlice, x.loopKey, x.loopElem = nil, nil, "" }
+	var keyObj, valObj types.Object
+	if key, ok := s.Key.(*ast.Ident); ok && key.Name != "_" {
+		keyObj = info.Defs[key]
+	}
+	if s.Value != nil {
+		val, ok := s.Value.(*ast.Ident)
+		if !ok || keyObj != nil {
+			fail(s, "range statement outside the subset")
+		}
+		valObj = info.Defs[val]
+	}
+	if keyObj == nil && valObj == nil {
+		fail(s, "range statement outside the subset")
+	}
+	xs := x.expr(s.X)
+	x.loopSlice, x.loopKey, x.loopVal, x.loopElem = types.ExprString(s.X), keyObj, valObj, "elem_"
+	leave := func() { x.loopSlice, x.loopKey, x.loopVal, x.loopElem = "", nil, nil, "" }
+	defer leave()
 	body := s.Body.List
 	if returns(body) {
-		// one `if c { return e }`: is there an element satisfying c?
+		// one `if c { return e }`: the first element satisfying c, if any
 		if len(body) == 1 {
 			if ifs, ok := body[0].(*ast.IfStmt); ok && ifs.Init == nil && ifs.Else == nil && len(ifs.Body.List) == 1 {
 				if ret, ok := ifs.Body.List[0].(*ast.ReturnStmt); ok && mustReturn {
 					cond := x.expr(ifs.Cond)
-					leave()
 					found := x.block([]ast.Stmt{ret}, ind+"  ")
-					return "if (" + local(xs.Name) + ").any (fun elem_ => " + cond + ") then\n" + ind + "  " + found + "\n" + ind + "else\n" + ind + "  " + x.block(after, ind+"  ")
+					leave()
+					rest := x.block(after, ind+"  ")
+					if strings.Contains(found, "elem_") {
+						return "match (" + xs + ").find? (fun elem_ => " + cond + ") with\n" + ind + "| some elem_ => " + found + "\n" + ind + "| none =>\n" + ind + "  " + rest
+					}
+					return "if (" + xs + ").any (fun elem_ => " + cond + ") then\n" + ind + "  " + found + "\n" + ind + "else\n" + ind + "  " + rest
 				}
 			}
 		}
@@ -704,7 +742,7 @@ func (x *tr) rangeStmt(s *ast.RangeStmt, after []ast.Stmt, ind string, mustRetur
 	}
 	step := x.assignOnly(body, vs, ind+"    ")
 	leave()
-	out := "let " + tuple(vs) + " := (" + local(xs.Name) + ").foldl (fun " + tuple(vs) + " elem_ =>\n" + ind + "    " + step + ") " + tuple(vs) + "\n" + ind
+	out := "let " + tuple(vs) + " := (" + xs + ").foldl (fun " + tuple(vs) + " elem_ =>\n" + ind + "    " + step + ") " + tuple(vs) + "\n" + ind
 	if mustReturn {
 		return out + x.block(after, ind)
 	}
@@ -809,6 +847,30 @@ func main() {
 			}
 			decls[name] = fd
 		}
+	}
+	if len(os.Args) > 2 && os.Args[2] == "-all" {
+		// discovery: which functions of the package are inside the subset today
+		all := []string{}
+		for n := range decls {
+			all = append(all, n)
+		}
+		sort.Strings(all)
+		x := &tr{translated: map[string]bool{}}
+		for _, t := range targets {
+			if d := decls[t]; d != nil {
+				if _, why := x.function(t, d); why == "" {
+					x.translated[leanName(t)] = true
+				}
+			}
+		}
+		for _, n := range all {
+			_, why := x.function(n, decls[n])
+			if why == "" {
+				why = "TRANSLATES"
+			}
+			fmt.Printf("%-40s %s\n", n, why)
+		}
+		return
 	}
 	fmt.Println("/- GENERATED by harness/cmd/translate from /repo on every run (T1b). Do not edit. -/")
 	fmt.Println("import Jsonapi.Model.Url")
